@@ -22,6 +22,7 @@ from flowmark.linewrapping.line_wrappers import (
     line_wrap_to_width,
 )
 from flowmark.linewrapping.protocols import LineWrapper
+from flowmark.linewrapping.tag_handling import TEMPLATE_TAG_PATTERN
 from flowmark.linewrapping.text_filling import DEFAULT_WRAP_WIDTH
 
 
@@ -794,7 +795,14 @@ class MarkdownNormalizer(Renderer):
     def render_raw_text(self, element: inline.RawText) -> str:
         from marko.ext.pangu import PANGU_RE
 
-        text = re.sub(PANGU_RE, " ", element.children)
+        # A space between CJK and Latin text is for prose only: template tags and HTML comments
+        # (which are raw text for Marko) come out exactly as written.
+        text = ""
+        pos = 0
+        for match in TEMPLATE_TAG_PATTERN.finditer(element.children):
+            text += re.sub(PANGU_RE, " ", element.children[pos : match.start()]) + match.group(0)
+            pos = match.end()
+        text += re.sub(PANGU_RE, " ", element.children[pos:])
         if self._in_heading or self._in_table_cell:
             # Paragraph text has its runs of spaces collapsed by line wrapping. Headings and
             # table cells are not wrapped, so do the same here: how many spaces the source
